@@ -21,6 +21,10 @@ package main
 //     start/current-relative seeks, exactly one FSTAT carrying the handle for an end-relative one.
 //     (Documented difference, not reported: WriteTo with concurrent reads and without UseFstat(true) sizes its
 //     worker pool by STAT of the path; when the name is gone it returns that error having transferred nothing.)
+// (b'') chains of offset-relative calls on one handle (xfChainSeq): every transfer variant from a non-zero offset, a
+//     follower, the variant again … so that "offset = start + n" cannot be confused with "offset = n";
+//     the open mode of the File rotates (xfSeqOpenModes); servers include the os-backed one with WithMaxTxPacket and a
+//     request server whose FilePut is no OpenFileWriter (reads through the handle must fail cleanly).
 // (c) race: goroutines hammer ReadAt/WriteAt/Stat/Truncate while two others call Close; the raw
 //     client->server byte stream is parsed: one CLOSE frame, no frame with that handle after it.
 // Model: every sequence is also evaluated by the Lean driver op xfer.seq (when present).
@@ -114,11 +118,49 @@ type xfSeqCase struct {
 	Seed    int64     `json:"perm_seed,omitempty"`
 	Limit   int64     `json:"rs_write_limit,omitempty"` // request server only: writes reaching beyond this offset are refused by the handler
 	Race    *xfRace   `json:"race,omitempty"`           // a race trial instead of a sequence
+	// Open: the mode the File is opened in ("" = rdwr; see xfOpenModeList). For the modes that empty the file file_len
+	// is the size after the open (0) and pre_open_len what the name held before.
+	Open   string `json:"open,omitempty"`
+	PreLen int    `json:"pre_open_len,omitempty"`
+	Tag    string `json:"tag,omitempty"` // which generator wrote the sequence (histogram only)
+}
+
+// The modes the sequences rotate through: all of them give a handle that reads and writes.
+var xfSeqOpenModes = []string{"rdwr", "rdwr+creat", "rdwr+append", "rdwr+trunc", "rdwr", "rdwr+creat", "rdwr+append", "create()", "rdwr", "rdwr+creat",
+	"rdwr+append", "rdwr+creat+trunc", "rdwr", "rdwr+creat", "rdwr+append", "rdwr+creat+excl"}
+
+func (sc xfSeqCase) Mode() xfOpenMode {
+	name := sc.Open
+	if name == "" {
+		name = "rdwr"
+	}
+	m, _ := xfOpenModeByName(name)
+	return m
+}
+
+// xfApplySeqOpen gives the sequence its open mode (see xfApplyOpen).
+func xfApplySeqOpen(sc *xfSeqCase, name string) {
+	sc.Open = name
+	m := sc.Mode()
+	if m.Empties() {
+		sc.PreLen = sc.FileLen
+		if sc.PreLen == 0 {
+			sc.PreLen = min(sc.Cfg.MP+3, 70000)
+		}
+		sc.FileLen = 0
+	}
+	if m.Fresh {
+		sc.PreLen = 0
+	}
 }
 
 func (sc xfSeqCase) Text() string {
 	var sb strings.Builder
-	fmt.Fprintf(&sb, "%s %s S%d w%d q%d:", sc.Srv, sc.Cfg, sc.FileLen, sc.Window, sc.Limit)
+	fmt.Fprintf(&sb, "%s %s S%d w%d q%d", sc.Srv, sc.Cfg, sc.FileLen, sc.Window, sc.Limit)
+	if sc.Open != "" {
+		fmt.Fprintf(&sb, " open=%s pre%d", sc.Open, sc.PreLen)
+	}
+	sb.WriteByte(':')
 	for _, o := range sc.Ops {
 		fmt.Fprintf(&sb, " %s%s/%d/%d/%d/%s/%d", o.K, o.Act, o.N, o.Off, o.Wh, o.Src, o.Conc)
 		if len(o.Fail) > 0 {
@@ -296,13 +338,28 @@ func xfRunSeq(sc xfSeqCase, real *xfReal, hold *xfPeerHold, dir string) (res xfS
 		xfInflight(0, sc)
 	}
 	initial := xfFilePat(sc.FileLen)
+	mode := sc.Mode()
+	if !mode.Reads() || !mode.Writes() || mode.Refuse {
+		res.SetupErr = fmt.Errorf("open mode %q gives no read-write handle", sc.Open)
+		return
+	}
+	before := initial // what the name holds before the open
+	if mode.Empties() {
+		before = xfFilePat(sc.PreLen)
+	}
+	// the request server's FilePut handler is no OpenFileWriter: the read-write open is served by Filewrite and the
+	// handle serves no READ
+	noRead := sc.Srv.Kind == "rs" && sc.Srv.NoOFW
 	var cli *sftp.Client
 	var peer *xfPeer
 	path := "/f"
 	closesBefore := 0
 	if sc.Srv.Kind == "peer" {
-		po := xfPeerOpts{File: initial, Exists: true, Window: sc.Window, PermSeed: sc.Seed}
-		if peer = hold.get(sc.Cfg, po, sc.FileLen*4); peer == nil {
+		po := xfPeerOpts{File: before, Exists: !mode.Fresh, Window: sc.Window, PermSeed: sc.Seed}
+		if mode.Fresh {
+			po.File = nil
+		}
+		if peer = hold.get(sc.Cfg, po, sc.FileLen*4+sc.PreLen); peer == nil {
 			var err error
 			if peer, err = xfNewPeer(sc.Cfg, po); err != nil {
 				res.SetupErr = err
@@ -317,7 +374,13 @@ func xfRunSeq(sc xfSeqCase, real *xfReal, hold *xfPeerHold, dir string) (res xfS
 	} else {
 		cli = real.Cli
 		path = real.Path("f")
-		if err := real.Put("f", initial); err != nil {
+		var err error
+		if mode.Fresh {
+			err = real.Remove("f")
+		} else {
+			err = real.Put("f", before)
+		}
+		if err != nil {
 			res.SetupErr = err
 			return
 		}
@@ -340,11 +403,22 @@ func xfRunSeq(sc xfSeqCase, real *xfReal, hold *xfPeerHold, dir string) (res xfS
 	}
 	defer tw.Close()
 	var f *sftp.File
-	if ok, _ := xfGuard(func() { f, err = cli.OpenFile(path, os.O_RDWR) }); !ok || err != nil {
+	if ok, _ := xfGuard(func() { f, err = mode.Open(cli, path) }); !ok || err != nil {
+		if sc.Open != "" && ok {
+			res.Fails = append(res.Fails, xfSeqFailure{Key: "open/" + mode.Name, What: "opening the served file in this mode failed", At: -1, Expected: "<nil>", Actual: fmt.Sprint(err)})
+			return
+		}
 		res.SetupErr = fmt.Errorf("open: %v (returned=%v)", err, ok)
 		return
 	}
-	defer f.Close()
+	hung := false
+	defer func() {
+		if hung {
+			go f.Close() // (a call that never returned holds the File's lock: Close would wait for it forever)
+			return
+		}
+		f.Close()
+	}()
 	// independent descriptors: both files stay readable whatever happens to their names
 	twRef, err := os.Open(twinPath)
 	if err != nil {
@@ -563,6 +637,7 @@ func xfRunSeq(sc xfSeqCase, real *xfReal, hold *xfPeerHold, dir string) (res xfS
 		}
 		if !ok {
 			fail(i, "seq/"+op.K+"/hang", "the call did not return within 20 s", "return", "hang")
+			hung = true
 			if hold != nil {
 				hold.Close()
 			}
@@ -600,6 +675,25 @@ func xfRunSeq(sc xfSeqCase, real *xfReal, hold *xfPeerHold, dir string) (res xfS
 				fail(i, "after-close/twin/"+op.K, "os.File itself does not return os.ErrClosed here", "os.ErrClosed", fmt.Sprint(terr))
 			}
 			parts = append(parts, fmt.Sprintf("%d:0:closed:7", lastOff))
+			continue
+		}
+		if noRead && (op.K == "r" || op.K == "ra" || op.K == "wt") {
+			// the handle serves no READ: the call must fail cleanly - the server's failure status, nothing delivered,
+			// the offset where it was - and the File stays usable (the sequence goes on)
+			wantClass := "srv4"
+			if op.K != "wt" && op.N == 0 {
+				wantClass = "ok" // an empty buffer asks the server nothing
+			}
+			so, e1 := f.Seek(0, io.SeekCurrent)
+			if e1 != nil || sn != 0 || len(sdata) != 0 || xfErrClass(serr) != wantClass || so != offBefore {
+				fail(i, key+"/refused-read", "a read through a handle the request server opened with Filewrite (FilePut is no OpenFileWriter) must return (0, the server's failure status), deliver nothing and leave the offset alone",
+					fmt.Sprintf("(0, %s), offset %d", wantClass, offBefore), fmt.Sprintf("(%d, %v), %d bytes delivered, offset %d (%v)", sn, serr, len(sdata), so, e1))
+				return
+			}
+			tw.Seek(offBefore, io.SeekStart)
+			res.Modelled = false
+			res.Marks["call="+op.K+"|refused: handle opened by Filewrite serves no READ"]++
+			lastOff = so
 			continue
 		}
 		if op.K == "wt" && serr != nil && sc.Cfg.CR && !sc.Cfg.Fstat && view.Kind == "gone" {
@@ -1055,6 +1149,88 @@ func xfNameSeq(cfg xfCfg, S int, variant int, act, act2 string) []xfOp {
 	return ops
 }
 
+// ---------- consecutive offset-relative calls on one handle ----------
+
+// A transfer that starts at offset 0 cannot tell "offset = start + n" from "offset = n" or "offset += start + n".
+// xfChainSeq therefore runs every transfer variant from a NON-ZERO offset and lets a second (third, …) offset-relative
+// call follow on the same handle: the follower must begin exactly where the transfer ended (its bytes land / come
+// from there, the os.File twin says where) and end at start + bytes moved itself; then the transfer variant runs once
+// more from wherever the follower left the offset. Seek(0, io.SeekCurrent) is asked after every call by xfRunSeq.
+var xfChainFirst = []string{"rfc0", "rfc1", "rfc3", "rf-len", "rf-size", "rf-stat", "rf-limited", "rf-opaque", "rf-opaque1", "w", "wt", "r"}
+var xfChainThen = []string{"w", "rf", "rfc", "sk-cur", "r", "wt", "sk-cur+1", "w0"}
+
+func xfChainSeq(cfg xfCfg, first, then string, variant int) (S int, ops []xfOp, path string) {
+	mp := cfg.MP
+	n1 := []int{2*mp + 1, 3 * mp, mp*min(cfg.Conc, 3) + mp + 1, mp + 1}[variant%4]
+	n2 := []int{mp + 1, 2*mp + 1, 3*mp - 1}[variant%3]
+	S = []int{4*mp + 3, 0, 2 * mp, 5*mp + 1}[(variant/2)%4]
+	start := []int64{1, int64(mp) + 1, int64(mp), 2}[(variant/3)%4]
+	seed := 1 + variant%200
+	mk := func(n int) xfOp {
+		seed += 7
+		switch first {
+		case "rfc0", "rfc1", "rfc3":
+			return xfOp{K: "rfc", N: n, Seed: seed, Conc: int(first[3] - '0'), Src: "opaque"}
+		case "w":
+			return xfOp{K: "w", N: n, Seed: seed}
+		case "wt":
+			return xfOp{K: "wt"}
+		case "r":
+			return xfOp{K: "r", N: n}
+		}
+		return xfOp{K: "rf", N: n, Seed: seed, Src: first[3:]}
+	}
+	follow := func() []xfOp {
+		seed += 3
+		switch then {
+		case "w":
+			return []xfOp{{K: "w", N: 1 + variant%(mp+1), Seed: seed}}
+		case "w0":
+			return []xfOp{{K: "w", N: 0}, {K: "w", N: mp + 2, Seed: seed}}
+		case "rf":
+			return []xfOp{{K: "rf", N: mp + 2, Seed: seed, Src: []string{"len", "opaque", "size"}[variant%3]}}
+		case "rfc":
+			return []xfOp{{K: "rfc", N: 2*mp + 1, Seed: seed, Conc: 2, Src: "opaque"}}
+		case "r":
+			return []xfOp{{K: "r", N: mp + 1}}
+		case "wt":
+			return []xfOp{{K: "wt"}}
+		case "sk-cur+1":
+			return []xfOp{{K: "sk", Off: 1, Wh: 1}}
+		}
+		return []xfOp{{K: "sk", Off: 0, Wh: 1}}
+	}
+	if first == "wt" || first == "r" {
+		if S < 4*mp {
+			S = 4*mp + 3 // something to read
+		}
+	}
+	ops = append(ops, xfOp{K: "sk", Off: start})
+	ops = append(ops, mk(n1))
+	ops = append(ops, follow()...)
+	if first == "wt" || first == "r" {
+		// the reader is at (or near) the end now: go back to a non-zero offset inside the file, relative to the current one
+		ops = append(ops, xfOp{K: "sk", Off: -int64(2*mp + 1), Wh: 1})
+	}
+	ops = append(ops, mk(n2))
+	ops = append(ops, follow()...)
+	ops = append(ops, xfOp{K: "sk", Off: 0, Wh: 1}, mk(mp+1), xfOp{K: "w", N: 1, Seed: 99}, xfOp{K: "st"}, xfOp{K: "cl"}, xfOp{K: "sk", Wh: 1})
+	// which path the first transfer takes under the option set
+	switch {
+	case first == "wt":
+		path = xfWriteToPath(cfg, S)
+	case first == "r":
+		path = xfCase{Cfg: cfg, API: "Read", Len: n1}.Path()
+	case first == "w":
+		path = xfCase{Cfg: cfg, API: "Write", Len: n1}.Path()
+	case strings.HasPrefix(first, "rfc"):
+		path = "concurrent"
+	default:
+		path = xfCase{Cfg: cfg, API: "ReadFrom", Src: first[3:], Len: n1}.Path()
+	}
+	return S, ops, path
+}
+
 // xfShrinkSeq removes calls one at a time while the same failure key still shows.
 func xfShrinkSeq(sc xfSeqCase, key string, run func(xfSeqCase) xfSeqResult) xfSeqCase {
 	has := func(r xfSeqResult) (int, bool) {
@@ -1251,7 +1427,7 @@ func checkC12(c *lib.Ctx) {
 	r := c.R
 	res := &xfRes{r: r}
 	thorough := c.Tier == "thorough"
-	r.Rule = "(a) WriteTo offset sweep: file sizes 0..3*mp*min(conc,3)+2 x start offsets {0,1,mp,size-1,size,size+1} x UseConcurrentReads x UseFstat x (mp,conc) on the scripted peer; (b) PRNG sequences (quick ~12, thorough ~40 calls + Close + 4..18 calls after Close) of Read/ReadAt/Write/WriteAt/ReadFrom(6 source kinds)/ReadFromWithConcurrency/WriteTo/Seek(whence 0,1,2 and invalid 5,7,-1; negative targets)/Stat/Truncate on os-backed server, request server and scripted peer (in order and permuted replies); in every second peer sequence a quarter of the read/write calls have 1-2 PRNG-chosen chunks answered with status 4/3, in every second request-server sequence the handler refuses writes beyond a PRNG quota: there the reference is offset-before + the intact prefix the server side recorded as stored (ReadAt/WriteAt: unchanged) x client options (quick: every (mp,conc) pair with rotating booleans, thorough: full product), mirrored on an *os.File; (b') per server kind and option set 7 (thorough 42) written-out sequences around a disturbed NAME with the handle open (op nm: rename away / remove / rotate / replace by a shorter or longer file / directory / symlink / dangling link, a second different one later; file sizes {0,1,mp,mp+1,2mp,3mp+2}; after each: Seek(x, io.SeekEnd) for x in {0,-1,-size,-size-1 (negative result: rejected without moving),+mp+1}, append, Read, Stat, WriteTo, Truncate, ReadFrom, ReadAt/WriteAt, Close), and every third PRNG sequence draws nm steps (each followed by 0-2 end-relative seeks) among its calls: real renames/removals on the os-backed server, differing STAT/LSTAT(path) vs FSTAT(handle) answers on the request server and the scripted peer, the same done to the os.File twin's name; every Seek's requests are read off the wire (none, or exactly one FSTAT on the handle for io.SeekEnd); (c) Close raced by 2 closers against 3..8 goroutines of ReadAt/WriteAt/Stat/Truncate on the scripted peer with the raw request stream parsed; non-trivial = a sequence that moves the offset through at least two different methods; distinct by the whole case text"
+	r.Rule = "(a) WriteTo offset sweep: file sizes 0..3*mp*min(conc,3)+2 x start offsets {0,1,mp,size-1,size,size+1} x UseConcurrentReads x UseFstat x (mp,conc) on the scripted peer; (b) PRNG sequences (quick ~12, thorough ~40 calls + Close + 4..18 calls after Close) of Read/ReadAt/Write/WriteAt/ReadFrom(6 source kinds)/ReadFromWithConcurrency/WriteTo/Seek(whence 0,1,2 and invalid 5,7,-1; negative targets)/Stat/Truncate on os-backed server, request server and scripted peer (in order and permuted replies); in every second peer sequence a quarter of the read/write calls have 1-2 PRNG-chosen chunks answered with status 4/3, in every second request-server sequence the handler refuses writes beyond a PRNG quota: there the reference is offset-before + the intact prefix the server side recorded as stored (ReadAt/WriteAt: unchanged) x client options (quick: every (mp,conc) pair with rotating booleans, thorough: full product), mirrored on an *os.File; (b') per server kind and option set 7 (thorough 42) written-out sequences around a disturbed NAME with the handle open (op nm: rename away / remove / rotate / replace by a shorter or longer file / directory / symlink / dangling link, a second different one later; file sizes {0,1,mp,mp+1,2mp,3mp+2}; after each: Seek(x, io.SeekEnd) for x in {0,-1,-size,-size-1 (negative result: rejected without moving),+mp+1}, append, Read, Stat, WriteTo, Truncate, ReadFrom, ReadAt/WriteAt, Close), and every third PRNG sequence draws nm steps (each followed by 0-2 end-relative seeks) among its calls: real renames/removals on the os-backed server, differing STAT/LSTAT(path) vs FSTAT(handle) answers on the request server and the scripted peer, the same done to the os.File twin's name; every Seek's requests are read off the wire (none, or exactly one FSTAT on the handle for io.SeekEnd); (b'') per option set 6 (thorough: all 96) written-out chains of offset-relative calls on ONE handle: Seek to a non-zero start, a transfer variant {ReadFromWithConcurrency(0,1,3), ReadFrom(Len/Size/Stat/LimitedReader: concurrent when UseConcurrentWrites and more than one packet; opaque: sequential), Write, WriteTo, Read} of 2-4 packets, a follower {Write, empty Write+Write, ReadFrom, ReadFromWithConcurrency, Read, WriteTo, Seek(0/1, io.SeekCurrent)}, the transfer variant again, the follower again, Seek(0, io.SeekCurrent), a third transfer, Write, Stat, Close: offset, bytes and content after every call against the os.File twin; x open mode of the File {O_RDWR, +O_CREATE, +O_APPEND, +O_TRUNC, Client.Create(), O_CREATE|O_TRUNC, O_CREATE|O_EXCL on a new name} rotating over chains and PRNG sequences (twin opened alike; O_APPEND is a no-op for the servers, so the twin is opened without it) x servers {os, rs, os+allocator, rs+allocator+max-tx 65536, os+max-tx 65536, os+allocator+max-tx 65536 (these three also with client packet size 40000), request server without sftp.OpenFileWriter (reads through the Filewrite handle must fail with the failure status, deliver nothing and leave the offset alone; writes, seeks, Stat, Truncate go on), client packet size 40000 > default max payload with concurrent reads off}; (c) Close raced by 2 closers against 3..8 goroutines of ReadAt/WriteAt/Stat/Truncate on the scripted peer with the raw request stream parsed; non-trivial = a sequence that moves the offset through at least two different methods; distinct by the whole case text"
 	model := xfProbeModel(c)
 	xfProbeDefects(&model)
 	if model.Seq {
@@ -1378,19 +1554,33 @@ func checkC12(c *lib.Ctx) {
 	}
 
 	// (b) sequences
-	specs := []xfSrvSpec{{Kind: "os"}, {Kind: "rs"}, {Kind: "peer"}, {Kind: "peer", Perm: true}, {Kind: "os", Alloc: true}, {Kind: "rs", Alloc: true, MaxTx: 65536}}
+	specs := []xfSrvSpec{{Kind: "os"}, {Kind: "rs"}, {Kind: "peer"}, {Kind: "peer", Perm: true}, {Kind: "os", Alloc: true}, {Kind: "rs", Alloc: true, MaxTx: 65536},
+		{Kind: "os", MaxTx: 65536}, {Kind: "os", Alloc: true, MaxTx: 65536}, {Kind: "rs", NoOFW: true}}
 	var jobs []xfJob
 	rot := int(c.Seed % 8)
 	for si, sp := range specs {
 		cfgs := xfCoverCfgs(si*3 + rot + 2)
 		if thorough {
 			cfgs = xfAllCfgs()
-			if si >= 4 { // the allocator variants get the covering set only
+			if si >= 4 { // the allocator / max-tx-packet / handler variants get the covering set only
 				cfgs = xfCoverCfgs(si*3 + rot + 2)
 			}
 		}
 		for _, cfg := range cfgs {
 			jobs = append(jobs, xfJob{Spec: sp, Cfg: cfg, Seed: c.Rand.Int63(), Idx: len(jobs)})
+		}
+		switch {
+		case sp.MaxTx >= 40000:
+			// a server whose max payload was raised serves a larger client packet size too
+			for b, conc := range []int{1, 3, 64} {
+				jobs = append(jobs, xfJob{Spec: sp, Cfg: xfCfg{MP: 40000, Unchecked: true, Conc: conc, CR: (si+b)%2 == 0, CW: (si/2+b)%2 == 0, Fstat: b == 0},
+					Seed: c.Rand.Int63(), Idx: len(jobs)})
+			}
+		case sp.Kind != "peer":
+			// a client packet size above the server's max payload: with concurrent reads off every read path asks again
+			// for the rest of a short DATA reply, so the offsets must still follow os.File's
+			jobs = append(jobs, xfJob{Spec: sp, Cfg: xfCfg{MP: 40000, Unchecked: true, Conc: []int{1, 3}[si%2], CR: false, CW: si%3 == 0, Fstat: si%2 == 0},
+				Seed: c.Rand.Int63(), Idx: len(jobs)})
 		}
 	}
 	perJob, seqLen := 14, 12
@@ -1398,6 +1588,8 @@ func checkC12(c *lib.Ctx) {
 		perJob, seqLen = 30, 40
 	}
 	var sampleN int32
+	hangs := &xfHangBudget{}
+	defer hangs.Report(r)
 	xfParallel(len(jobs), runtime.GOMAXPROCS(0), func(w, ji int) {
 		job := jobs[ji]
 		rng := rand.New(rand.NewSource(job.Seed))
@@ -1434,10 +1626,39 @@ func checkC12(c *lib.Ctx) {
 		if thorough {
 			nameSeqs *= 6
 		}
-		for s := -nameSeqs; s < perJob; s++ {
+		if job.Spec.NoOFW {
+			nameSeqs = 0 // (the written-out name sequences read through the handle at every step)
+		}
+		// the chains of offset-relative calls: quick rotates through the (transfer, follower) pairs, thorough takes them all
+		nPairs := len(xfChainFirst) * len(xfChainThen)
+		chainSeqs := 6
+		if thorough {
+			chainSeqs = nPairs
+		}
+		if job.Cfg.MP > 1000 {
+			chainSeqs = min(chainSeqs, 4)
+			if thorough {
+				chainSeqs = 24
+			}
+		}
+		for s := -nameSeqs - chainSeqs; s < perJob; s++ {
+			if hangs.Spent(job.Spec) {
+				return
+			}
 			var S int
 			var ops []xfOp
-			if s < 0 {
+			tag := ""
+			if s < -nameSeqs {
+				t := s + nameSeqs + chainSeqs
+				pi := (job.Idx*chainSeqs*5 + rot*7 + t*13) % nPairs
+				if thorough && chainSeqs == nPairs {
+					pi = t
+				}
+				first, then := xfChainFirst[pi%len(xfChainFirst)], xfChainThen[pi/len(xfChainFirst)]
+				var cpath string
+				S, ops, cpath = xfChainSeq(job.Cfg, first, then, job.Idx+t)
+				tag = "chain|first=" + first + "|path=" + cpath + ";chain|then=" + then
+			} else if s < 0 {
 				// (b') the written-out sequences around a disturbed name: every kind of disturbance for this option set
 				t := s + nameSeqs
 				ai, variant := t%len(xfNameActs), t/len(xfNameActs)+job.Idx
@@ -1449,9 +1670,20 @@ func checkC12(c *lib.Ctx) {
 				if job.Cfg.MP > 1000 {
 					n = 4 + rng.Intn(6)
 				}
-				S, ops = xfGenSeq(rng, job.Cfg, n, job.Spec.Kind == "peer" && s%2 == 1, s%3 == 2)
+				S, ops = xfGenSeq(rng, job.Cfg, n, job.Spec.Kind == "peer" && s%2 == 1, s%3 == 2 && !job.Spec.NoOFW)
 			}
-			sc := xfSeqCase{Srv: job.Spec, Cfg: job.Cfg, FileLen: S, Ops: ops, Window: 1}
+			sc := xfSeqCase{Srv: job.Spec, Cfg: job.Cfg, FileLen: S, Ops: ops, Window: 1, Tag: tag}
+			// the open mode rotates over the sequences (the written-out name sequences keep track of the exact size
+			// themselves and stay with plain O_RDWR)
+			if s >= 0 || s < -nameSeqs {
+				name := xfSeqOpenModes[(job.Idx*3+s+nameSeqs+chainSeqs+rot)%len(xfSeqOpenModes)]
+				if m, _ := xfOpenModeByName(name); m.Empties() && (strings.HasPrefix(tag, "chain|first=wt") || strings.HasPrefix(tag, "chain|first=r|")) {
+					name = "rdwr+append" // these chains need something to read
+				}
+				if name != "rdwr" {
+					xfApplySeqOpen(&sc, name)
+				}
+			}
 			if s < 0 {
 				if job.Spec.Perm {
 					sc.Seed = rng.Int63()
@@ -1478,8 +1710,15 @@ func checkC12(c *lib.Ctx) {
 			res.Case(sc.Text(), len(movers) >= 2)
 			hs := []string{"seq|srv=" + job.Spec.String(), fmt.Sprintf("seq|opt=mp%d|c%d", job.Cfg.MP, job.Cfg.Conc),
 				fmt.Sprintf("seq|opt=cr%d|cw%d|fstat%d", xfB(job.Cfg.CR), xfB(job.Cfg.CW), xfB(job.Cfg.Fstat))}
-			if s < 0 {
+			if s < 0 && s >= -nameSeqs {
 				hs = append(hs, "seq|written-out-around-a-disturbed-name")
+			}
+			if tag != "" {
+				hs = append(hs, strings.Split(tag, ";")...)
+			}
+			hs = append(hs, "seq|open="+sc.Mode().Name, "seq|open="+sc.Mode().Name+"|srv="+job.Spec.Kind)
+			if !sr.Modelled && len(sr.Fails) == 0 && sr.SetupErr == nil {
+				hs = append(hs, "model=not-compared|sequence has calls the model cannot express")
 			}
 			for k, n := range sr.Marks {
 				for ; n > 0; n-- {
@@ -1534,6 +1773,16 @@ func checkC12(c *lib.Ctx) {
 					if f.Key == xfKeyF12 {
 						continue
 					}
+					if strings.HasSuffix(f.Key, "/hang") {
+						// (every re-run of a hanging sequence costs 20 s: cut it after the hanging call, do not shrink further)
+						small := sc
+						if f.At+1 < len(small.Ops) {
+							small.Ops = append([]xfOp(nil), small.Ops[:f.At+1]...)
+						}
+						report(small, []xfSeqFailure{f})
+						reported = true
+						break
+					}
 					small := xfShrinkSeq(sc, f.Key, run)
 					sm := run(small)
 					report(small, sm.Fails)
@@ -1547,6 +1796,9 @@ func checkC12(c *lib.Ctx) {
 				hang := false
 				for _, f := range sr.Fails {
 					hang = hang || strings.HasSuffix(f.Key, "/hang")
+				}
+				if hang {
+					hangs.Add(job.Spec)
 				}
 				if hang && real != nil {
 					real.Shutdown()
